@@ -10,7 +10,7 @@ THEOREMS = ['MindsVerif.Props.C18.' + n for n in (
     'C18_copy_iso', 'C18_copy_iso_generic', 'C18_copy_iso_live', 'C18_witness_6', 'phi18_ident_shape', 'C18_iso_sound', 'C18_witness_1', 'C18_witness_1a', 'C18_witness_1b', 'phi18', 'phi18_paren', 'phi18_ident_attrs',
     'pin_custom_copy', 'pin_eq_defs', 'pin_plan_variant',
     'C18_ast_eq', 'C18_step_eq_refl', 'C18_step_eq_symm_partial', 'C18_witness_4', 'C18_witness_2',
-    'C18_plan_eq_fixed', 'C18_witness_3', 'C18_result_eq', 'C18_col_eq', 'C18_witness_5', 'C18_witness_7', 'C18_single_line_refines', 'pin_single_line')]
+    'C18_plan_eq_fixed', 'C18_witness_3', 'C18_result_eq', 'C18_col_eq', 'C18_witness_5', 'C18_list_eq', 'C18_plan_eq_list', 'C18_witness_8', 'phi18_plan_rows', 'phi18_step_rows', 'C18_witness_7', 'C18_single_line_refines', 'pin_single_line')]
 ASSUME = [
     'Python object model as in Model/Heap.lean: an object is its vars() in order, lists/dicts are cells, '
     'str/int/float/bool/None/type are atoms; copy.deepcopy of CPython 3.12 Lib/copy.py and Identifier.__deepcopy__ are '
@@ -179,20 +179,22 @@ def probe_tree(t, rng, meta, max_mut=80):
 
 
 def string_sites(root):
-    """(object index in H.walk order, key, value) for every string-valued attribute / list item / dict value"""
+    """(object index in H.walk order, key, value) for every string- or bool-valued attribute / list item / dict value"""
     out = []
     for i, o in enumerate(H.walk(root)):
         if isinstance(o, list):
-            out += [(i, j, v) for j, v in enumerate(o) if isinstance(v, str)]
+            out += [(i, j, v) for j, v in enumerate(o) if isinstance(v, (str, bool))]
         elif isinstance(o, dict):
-            out += [(i, k, v) for k, v in o.items() if isinstance(v, str)]
+            out += [(i, k, v) for k, v in o.items() if isinstance(v, (str, bool))]
         elif hasattr(o, '__dict__') and not isinstance(o, (tuple, set, frozenset)):
-            out += [(i, k, v) for k, v in vars(o).items() if isinstance(v, str)]
+            out += [(i, k, v) for k, v in vars(o).items() if isinstance(v, (str, bool))]
     return out
 
 
 def string_variants(v, rng):
-    """one-string near misses: letter case, one character, whitespace"""
+    """one-value near misses: letter case, one character, whitespace; a bool is toggled"""
+    if isinstance(v, bool):
+        return [('toggle', not v)]
     out = []
     if v.swapcase() != v:
         out.append(('case', v.swapcase()))
@@ -293,6 +295,29 @@ def kind_of_site(o):
     return H.kind_of(o)
 
 
+def check_variant_copy(a, b, meta, site, kind, new):
+    """the copy oracle on a tree that differs from a parser tree in one attribute value (a flag set, a name
+    changed): copy() must keep *every* value, not only the ones a constructor would default to"""
+    try:
+        sb, tb = str(b), b.to_tree()
+    except Exception:
+        return []
+    owner = H.walk(a)[site[0]]
+    where = '%s.%s' % (kind_of_site(owner), site[1] if not isinstance(site[1], int) else 'item')
+    base = dict(probe='nearmiss-copy', site=[site[0], site[1]], old=site[2], new=new, variant=kind, where=where, **meta)
+    try:
+        c = b.copy()
+        ok_eq = (c == b) is True and (b == c) is True
+        sc, tc = str(c), c.to_tree()
+    except Exception as e:
+        return [dict(base, desc='copy() of the tree with %s = %r raised %s' % (where, new, type(e).__name__),
+                     **{'class': 'copy-raises-variant/%s' % where})]
+    if not ok_eq or sc != sb or tc != tb:
+        return [dict(base, desc='after setting %s = %r (was %r) copy() is not a faithful copy: %r vs %r' % (where, new, site[2], sc[:160], sb[:160]),
+                     **{'class': 'copy-unequal-variant/%s/%s' % (where, kind)})]
+    return []
+
+
 def probe_near_miss(t, rng, meta, limit=None):
     """all single-string near misses of one tree (a random sample of `limit` sites x all variants)"""
     try:
@@ -312,6 +337,8 @@ def probe_near_miss(t, rng, meta, limit=None):
                 continue
             n += 1
             fails += check_near_miss(t, b, meta, site, kind, new)
+            if kind in ('toggle', 'char'):
+                fails += check_variant_copy(t, b, meta, site, kind, new)
             set_site(b, site, site[2])
     return fails, n
 
@@ -426,6 +453,142 @@ def probe_result(n):
     return fails
 
 
+def mkplan(p, idx):
+    """a plan made of the steps of p at the given positions (the step objects are shared: compared, never changed)"""
+    q = type(p)()
+    q.steps = [p.steps[i] for i in idx]
+    return q
+
+
+def plan_index_variants(n, rng):
+    """index lists into the steps of a plan with n steps: the plan itself, every proper prefix (the empty plan
+    included), a suffix, extensions, one step dropped / duplicated / replaced, two steps swapped, reversed"""
+    full = list(range(n))
+    out = [('self', full), ('empty', [])]
+    out += [('prefix%d' % k, full[:k]) for k in range(1, n)]
+    if n:
+        out += [('extend-first', full + [0]), ('extend-last', full + [n - 1]), ('dup-prefix', [0] + full)]
+    if n >= 2:
+        i = rng.randrange(n)
+        j = (i + 1 + rng.randrange(n - 1)) % n
+        out += [('suffix', full[1:]), ('drop', full[:i] + full[i + 1:]), ('swap', [j if x == i else i if x == j else x for x in full]),
+                ('replace', [j if x == i else x for x in full]), ('reversed', full[::-1])]
+    return out
+
+
+def ref_plan_eq(a, b):
+    """reference reading of plan equality: same type, same number of steps, pairwise equal steps"""
+    return type(a) is type(b) and len(a.steps) == len(b.steps) and all((x == y) is True for x, y in zip(a.steps, b.steps))
+
+
+def probe_plan_laws(p, sql, cat, rng, limit=9):
+    """equality laws on the family of plans derived from p: == agrees with the reference reading (in particular a
+    plan never equals a proper prefix / extension / the empty plan), is symmetric, transitive, consistent with !="""
+    fails = []
+    var = plan_index_variants(len(p.steps), rng)
+    if len(var) > limit:
+        var = var[:2] + rng.sample(var[2:], limit - 2)
+    fam = [(name, idx, mkplan(p, idx)) for name, idx in var]
+
+    def fail(cls, desc, **kw):
+        d = dict(probe='planpair', sql=sql, cat=cat, desc=desc, **kw)
+        d['class'] = cls
+        fails.append(d)
+    res = {}
+    for na, ia, a in fam:
+        for nb, ib, b in fam:
+            r = call_eq(a, b)
+            res[(na, nb)] = r
+            want = 'true' if ref_plan_eq(a, b) else 'false'
+            if r != want:
+                fail('plan-eq-wrong/%s-vs-%s/%s' % (re.sub(r'\d+', '', na), re.sub(r'\d+', '', nb), r),
+                     'plans with steps %s and %s of the plan of %r (%d steps): == is %s, but they have %s' % (
+                         ia, ib, sql[:120], len(p.steps), r,
+                         'the same number of pairwise equal steps' if want == 'true' else 'different steps (%d vs %d)' % (len(ia), len(ib))),
+                     idx_a=ia, idx_b=ib, got=r, want=want)
+            try:
+                ne = (a != b)
+                if r in ('true', 'false') and ne is not (r == 'false'):
+                    fail('plan-ne-inconsistent', 'a != b is %r while a == b is %s' % (ne, r), idx_a=ia, idx_b=ib)
+            except Exception:
+                pass
+    names = [n for n, _, _ in fam]
+    idx_of = {n: i for n, i, _ in fam}
+    for x in names:
+        for y in names:
+            if res[(x, y)] != res[(y, x)]:
+                fail('plan-eq-asymmetric', 'a == b is %s but b == a is %s (steps %s vs %s)' % (res[(x, y)], res[(y, x)], idx_of[x], idx_of[y]),
+                     idx_a=idx_of[x], idx_b=idx_of[y])
+            if res[(x, y)] == 'true':
+                for z in names:
+                    if res[(y, z)] == 'true' and res[(x, z)] != 'true':
+                        fail('plan-eq-not-transitive', 'a == b and b == c but a == c is %s (steps %s, %s, %s)' % (
+                            res[(x, z)], idx_of[x], idx_of[y], idx_of[z]), idx_a=idx_of[x], idx_b=idx_of[z], idx_mid=idx_of[y])
+    return fails, len(fam) ** 2
+
+
+def container_variants(v, rng):
+    """variants of a list / dict attribute value that are certainly different containers: (name, new value)"""
+    out = []
+    if isinstance(v, list):
+        if v:
+            out += [('list-drop-last', v[:-1]), ('list-drop-first', v[1:]), ('list-dup-last', v + [v[-1]]), ('list-empty', [])]
+        else:
+            out += [('list-add', [None])]
+    elif isinstance(v, dict):
+        if v:
+            k = next(iter(v))
+            out += [('dict-drop', {a: b for a, b in v.items() if a != k}), ('dict-empty', {})]
+        out += [('dict-add', dict(v, zz_key=1))]
+    return out
+
+
+def probe_step_containers(a, sql, cat, i, rng):
+    """a step must differ from a copy whose list / dict attribute (sub-steps, columns, params …) is a proper
+    prefix / extension of the original's, in both directions"""
+    fails, n = [], 0
+    for k, v in list(vars(a).items()):
+        if k == 'result_data':
+            continue
+        for name, new in container_variants(v, rng):
+            b = copy.copy(a)
+            setattr(b, k, new)
+            n += 1
+            ab, ba = call_eq(a, b), call_eq(b, a)
+            if ab != 'false' or ba != 'false':
+                d = dict(probe='stepcontainer', sql=sql, cat=cat, step_index=i, attr=k, variant=name, ab=ab, ba=ba,
+                         desc='%s step %d of the plan of %r: a copy whose attribute %s is changed by %s compares %s / %s to the original' % (
+                             type(a).__name__, i, sql[:120], k, name, ab, ba))
+                d['class'] = 'step-eq-container/%s.%s/%s' % (type(a).__name__, k, name)
+                fails.append(d)
+    return fails, n
+
+
+def probe_dataclass_eq(cls):
+    """laws of a dataclass-generated __eq__ (planner-internal records such as TableInfo)"""
+    import dataclasses
+    fails = []
+    req = [f for f in dataclasses.fields(cls) if f.default is dataclasses.MISSING and f.default_factory is dataclasses.MISSING]
+    args = ['v%d' % i for i in range(len(req))]
+    try:
+        a, b = cls(*args), cls(*args)
+    except Exception:
+        return fails
+    checks = [('reflexive', call_eq(a, a) == 'true'), ('equal-fields', call_eq(a, b) == 'true' and call_eq(b, a) == 'true'),
+              ('non-instance', (a == 1) is False and (a == None) is False)]  # noqa: E711
+    for f in dataclasses.fields(cls):
+        if not f.compare:
+            continue
+        c = cls(*args)
+        setattr(c, f.name, 'zz_other')
+        checks.append(('field:' + f.name, call_eq(a, c) == 'false' and call_eq(c, a) == 'false'))
+    for name, ok in checks:
+        if not ok:
+            fails.append(dict(probe='dataclass', cls=cls.__name__, desc='%s.__eq__ violates %s' % (cls.__name__, name),
+                              **{'class': 'dataclass-eq/%s/%s' % (cls.__name__, name.split(':')[0])}))
+    return fails
+
+
 def kf_match(k, f):
     sig = k.get('signature', {})
     if sig.get('class') != f.get('class'):
@@ -455,7 +618,7 @@ def reproduce_kf(k, rng):
 
 # --------------------------------------------------------------------------- streams
 
-def tree_stream(chk, quick, deep):
+def tree_stream(chk, quick, deep, wide=False):
     """(meta, tree) for parser-produced trees: corpus x dialects, hand cases, grammar-derived sentences"""
     from mindsdb_sql import parse_sql
     from tools.harness import corpus, streams
@@ -476,7 +639,7 @@ def tree_stream(chk, quick, deep):
                 continue
             seen.add(key)
             yield dict(src='corpus', dialect=d, sql=s), t
-    n_mut, n_sent = (150, 250) if not deep else (3000, 6000)
+    n_mut, n_sent = (3000, 6000) if deep else ((600, 1000) if wide else (150, 250))
     for d in DIALECTS:
         rng = common.rng_for(chk.seed, 'C18/sent/' + d)
         for case in streams.statement_stream(d, rng, n_mut, n_sent, with_corpus=False):
@@ -560,7 +723,8 @@ def copy_line(root, hook):
 
 def run(chk):
     quick = chk.tier == 'quick'
-    deep = (not quick) or bool(chk.broken())
+    deep = not quick
+    wide = quick and bool(chk.broken())      # an obligation is broken: search wider, but bounded (~2 min)
     sd = side()
     hook = sd['hook']
     rng = common.rng_for(chk.seed, 'C18/main')
@@ -580,8 +744,13 @@ def run(chk):
     def bump(key):
         dist[key] = dist.get(key, 0) + 1
 
+    per_class = {}
+
     def add_failures(fs):
         for f in fs:
+            per_class[f.get('class')] = per_class.get(f.get('class'), 0) + 1
+            if per_class[f.get('class')] > 25:          # enough examples of one class; keep the run bounded
+                continue
             f.pop('_mutations', None)
             chk.classify(f, kf_match)
             chk.fail(f)
@@ -590,7 +759,7 @@ def run(chk):
     trees = []
     n_trees = n_muts = n_near = 0
     bad_shape = []
-    for meta, t in tree_stream(chk, quick, deep):
+    for meta, t in tree_stream(chk, quick, deep, wide):
         n_trees += 1
         chk.count(('tree', meta['dialect'], meta['sql']))
         bump('tree/%s/%s' % (meta['src'], type(t).__name__ if meta['src'] == 'hand' else 'any'))
@@ -613,7 +782,7 @@ def run(chk):
         n_muts += m.get('_mutations', 0)
         add_failures(fs)
         bump('tree/%s' % ('fail' if fs else 'ok'))
-        nf, nn = probe_near_miss(t, rng, dict(meta), limit=12 if quick and not deep else None)
+        nf, nn = probe_near_miss(t, rng, dict(meta), limit=None if deep else (40 if wide else 12))
         n_near += nn
         add_failures(nf)
         if nf:
@@ -677,7 +846,7 @@ def run(chk):
     # typed planner generator (tools/harness/plangen.py): statements x catalogs
     from tools.harness import plangen
     grng = common.rng_for(chk.seed, 'C18/plangen')
-    gen_cases = list(plangen.FIXED) + list(plangen.probe_stream(grng, 600 if quick and not deep else 8000))
+    gen_cases = list(plangen.FIXED) + list(plangen.probe_stream(grng, 8000 if deep else (2000 if wide else 600)))
     seen_g = set()
     for sql_g, cat_g in gen_cases:
         if (sql_g, cat_g) in seen_g:
@@ -693,6 +862,34 @@ def run(chk):
         plans.append(((sql_g, cat_g), p1, p2))
     prng = common.rng_for(chk.seed, 'C18/plans')
     fixed = '1' if sd['plan'] == 'true' else '0'
+    # plan-level equality laws on derived families (prefixes, the empty plan, extensions, reorderings) and on
+    # steps whose container attributes are shortened / extended
+    lrng = common.rng_for(chk.seed, 'C18/planlaws')
+    n_law = 0
+    for (sql_p, cat_p), p1, p2 in plans:
+        fs, n = probe_plan_laws(p1, sql_p, cat_p, lrng, limit=16 if deep or wide else 9)
+        n_law += n
+        add_failures(fs)
+        for i, st in enumerate(p1.steps):
+            fs, n = probe_step_containers(st, sql_p, cat_p, i, lrng)
+            n_law += n
+            add_failures(fs)
+    chk.evaluations += n_law
+    dist['plan_law_pairs'] = n_law
+    # classes with a generated (dataclass) __eq__ found by the extractor's introspection
+    import dataclasses, importlib, pkgutil, inspect
+    import mindsdb_sql
+    for cname, meths in sd.get('eqdefs', []):
+        if '__eq__@dataclass' in meths:
+            for mi in pkgutil.walk_packages(mindsdb_sql.__path__, 'mindsdb_sql.'):
+                try:
+                    c = getattr(importlib.import_module(mi.name), cname, None)
+                except Exception:
+                    c = None
+                if inspect.isclass(c) and dataclasses.is_dataclass(c):
+                    add_failures(probe_dataclass_eq(c))
+                    chk.count(('dataclass', cname))
+                    break
     for idx, (s, p1, p2) in enumerate(plans):
         other = plans[prng.randrange(len(plans))][1]
         for q in (p2, p1, other, 'not a plan'):
@@ -701,6 +898,13 @@ def run(chk):
             tb = ['_'] + ([abstract_value(x, it_v) for x in q.steps] if same == '1' else [])
             lines.append('planeq %s %s %s | %s' % (fixed, same, ' '.join(ta), ' '.join(tb)))
             expect.append(('planeq', dict(sql=s), call_eq(p1, q)))
+            if same == '1':
+                want = 'true' if ref_plan_eq(p1, q) else 'false'
+                got = call_eq(p1, q)
+                if got != want:
+                    add_failures([dict(probe='plan', sql=s[0], cat=s[1], got=got, want=want,
+                                       desc='plans of %d and %d steps: == is %s but the reference reading (same length, pairwise equal steps) is %s' % (
+                                           len(p1.steps), len(q.steps), got, want), **{'class': 'plan-eq-wrong/cross/%s' % got})])
         steps = list(p1.steps)
         for a in steps:
             b = prng.choice(steps + list(p2.steps) + list(other.steps))
@@ -761,7 +965,7 @@ def run(chk):
     # ---- to_single_line: model (variant probed by the extractor) vs the real function
     sl_texts = [str(t) for m_, t in trees[:150]]
     sl_alpha = [' ', ' ', '\n', '\t', 'a', 'b', "'", '"', '`', '\\', 'x', '.', '(']
-    for _ in range(600 if quick and not deep else 20000):
+    for _ in range(20000 if deep else 600):
         sl_texts.append(''.join(prng.choice(sl_alpha) for _ in range(prng.randint(0, 16))))
     for x in sl_texts:
         if all(ord(ch) < 128 and (ch >= ' ' or ch in '\n\t') for ch in x):
@@ -824,6 +1028,24 @@ def replay(path):
         site = (f['site'][0], f['site'][1], f['old'])
         set_site(b, site, f['new'])
         fs = check_near_miss(a, b, dict(dialect=f['dialect'], sql=f['sql']), site, f['variant'], f['new'])
+    elif f.get('probe') == 'nearmiss-copy':
+        a = parse_sql(f['sql'], f['dialect'])
+        b = copy.deepcopy(a)
+        site = (f['site'][0], f['site'][1], f['old'])
+        set_site(b, site, f['new'])
+        fs = check_variant_copy(a, b, dict(dialect=f['dialect'], sql=f['sql']), site, f['variant'], f['new'])
+    elif f.get('probe') == 'planpair':
+        from mindsdb_sql.planner import plan_query
+        p = plan_query(parse_sql(f['sql'], 'mindsdb'), **catalog_of(f.get('cat')))
+        a, b = mkplan(p, f['idx_a']), mkplan(p, f['idx_b'])
+        got, want = call_eq(a, b), ('true' if ref_plan_eq(a, b) else 'false')
+        fs = [dict(f, got=got, want=want)] if (got != want or call_eq(b, a) != got or f['class'] == 'plan-eq-not-transitive'
+                                                and call_eq(a, mkplan(p, f['idx_mid'])) == 'true' and call_eq(mkplan(p, f['idx_mid']), b) == 'true' and got != 'true') else []
+    elif f.get('probe') == 'stepcontainer':
+        from mindsdb_sql.planner import plan_query
+        p = plan_query(parse_sql(f['sql'], 'mindsdb'), **catalog_of(f.get('cat')))
+        fs = [g for g in probe_step_containers(p.steps[f['step_index']], f['sql'], f.get('cat'), f['step_index'], rng)[0]
+              if g['class'] == f['class']]
     elif f.get('probe') == 'steppair':
         from mindsdb_sql.planner import plan_query
         fs = []
